@@ -1,6 +1,603 @@
-//! C24 — not built yet.
-use vcommon::Args;
+//! C24 — the object server exposes exactly the registered interfaces.
+//!
+//! Explicit-state search over operation histories, every transition executed on the real
+//! `ObjectServer` of a real p2p connection pair: ops {at(p, I), remove::<I>(p), lookup} over paths
+//! {/, /a, /a/b, /c} x interfaces {I1, I2}. Quick: the FULL history tree (no state merging) to
+//! depth 4. Thorough: full tree to depth 5, then breadth-first search with merging by canonical
+//! observation until no new state appears.
+//!
+//! The oracle is transition-local: the registry is probed before and after the last operation of
+//! every history (lookup through `ObjectServer::interface`, a method call and a property read over
+//! the wire, `Introspect` of every path), and the post-state must be what the boring set model makes
+//! of the *observed* pre-state. All histories start from the (checked) empty registry and every
+//! prefix is itself an enumerated history, so "every transition is right" is the statement's
+//! "the visible set equals what the history implies" by induction, while one defective transition
+//! does not cascade into every history that extends it.
 
-pub fn main(_args: &Args) -> i32 {
-    vcommon::machinery_failure("C24: check not built yet")
+use std::collections::{BTreeMap, BTreeSet, HashSet};
+use std::sync::Mutex;
+
+use serde_json::json;
+use vcommon::{enumerate, hash64, Args, Report, Violation};
+
+use crate::osrv::{
+    self, do_op, history_from_json, history_json, probe, relation, show_history, Obs, Op, OpRet, Pair, Ran,
+    Sys, IFACES, PATHS,
+};
+
+pub(crate) fn alphabet() -> Vec<Op> {
+    let mut v = vec![];
+    for p in 0..PATHS.len() {
+        for i in 0..IFACES.len() {
+            v.push(Op::At { p, i, val: 0 });
+        }
+    }
+    for p in 0..PATHS.len() {
+        for i in 0..IFACES.len() {
+            v.push(Op::Remove { p, i });
+        }
+    }
+    v.push(Op::Lookup);
+    v
+}
+
+/// Outcome of running one history and observing its last transition.
+pub(crate) enum Exec {
+    /// A prefix operation (or the probe before the last one) panicked or hung; that prefix is
+    /// itself an enumerated history and is reported there.
+    DeadPrefix(usize, String),
+    Last {
+        history: Vec<Op>,
+        pre: Option<Obs>,
+        /// `Err(kind, text)` = panic / hang of the operation itself.
+        ret: Result<OpRet, (String, String)>,
+        /// `Err` = panic / hang of the probe after the operation.
+        post: Result<Obs, (String, String)>,
+    },
+}
+
+fn failed<T>(r: &Ran<T>) -> Option<(String, String)> {
+    match r {
+        Ran::Done(_) => None,
+        Ran::Hung => Some(("hang".into(), "nothing is enabled and the call has not returned".into())),
+        Ran::Panic { msg, loc } => Some(("panic".into(), format!("{msg} at {loc}"))),
+    }
+}
+
+/// How the instance tag of the last `at` is chosen.
+#[derive(Clone, Copy, PartialEq)]
+pub(crate) enum Tags {
+    /// As written in the history.
+    Given,
+    /// 1 if the pair is absent in the observed pre-state, otherwise a tag different from the
+    /// registered instance's (keeps the state space finite for merging).
+    FromPre,
+}
+
+fn run_op(sys: &mut Sys, op: Op) -> Ran<OpRet> {
+    match op {
+        Op::Lookup => {
+            let (c, s) = (sys.client.clone(), sys.server.clone());
+            match sys.run("lookup", probe(c, s)) {
+                Ran::Done(_) => Ran::Done(OpRet::Unit),
+                Ran::Hung => Ran::Hung,
+                Ran::Panic { msg, loc } => Ran::Panic { msg, loc },
+            }
+        }
+        _ => {
+            let s = sys.server.clone();
+            sys.run("op", do_op(s, op))
+        }
+    }
+}
+
+pub(crate) fn run_history(h: &[Op], tags: Tags) -> Exec {
+    let mut sys = match Sys::new() {
+        Ok(s) => s,
+        Err(e) => vcommon::machinery_failure(&format!("cannot build the p2p pair: {e}")),
+    };
+    let n = h.len();
+    for (k, op) in h.iter().enumerate().take(n.saturating_sub(1)) {
+        let r = run_op(&mut sys, *op);
+        if let Some((kind, text)) = failed(&r) {
+            return Exec::DeadPrefix(k, format!("{kind}: {text}"));
+        }
+    }
+    let mut history = h.to_vec();
+    let pre = if n > 0 {
+        let (c, s) = (sys.client.clone(), sys.server.clone());
+        match sys.run("probe-before", probe(c, s)) {
+            Ran::Done(o) => Some(o),
+            r => {
+                let (kind, text) = failed(&r).unwrap();
+                return Exec::DeadPrefix(n - 1, format!("probe {kind}: {text}"));
+            }
+        }
+    } else {
+        None
+    };
+    let ret = if n > 0 {
+        let mut op = h[n - 1];
+        if let (Tags::FromPre, Op::At { p, i, .. }, Some(pre)) = (tags, op, pre.as_ref()) {
+            let val = match pre.lookup.get(&(p, i)) {
+                Some(osrv::View::Val(v)) => {
+                    if *v == 1 {
+                        2
+                    } else {
+                        1
+                    }
+                }
+                _ => 1,
+            };
+            op = Op::At { p, i, val };
+            history[n - 1] = op;
+        }
+        let r = run_op(&mut sys, op);
+        match r {
+            Ran::Done(v) => Ok(v),
+            r => Err(failed(&r).unwrap()),
+        }
+    } else {
+        Ok(OpRet::Unit)
+    };
+    let post = if ret.is_ok() {
+        let (c, s) = (sys.client.clone(), sys.server.clone());
+        match sys.run("probe-after", probe(c, s)) {
+            Ran::Done(o) => Ok(o),
+            r => Err(failed(&r).unwrap()),
+        }
+    } else {
+        Err(("skipped".into(), "the operation did not return".into()))
+    };
+    // After a panic the world is discarded like any other (drop must not take the check down).
+    let _ = vcommon::catch(move || drop(sys));
+    Exec::Last {
+        history,
+        pre,
+        ret,
+        post,
+    }
+}
+
+// ---------------------------------------------------------------------------------------------
+// Oracle
+// ---------------------------------------------------------------------------------------------
+
+/// The boring model: pair -> instance tag.
+pub(crate) type Model = BTreeMap<Pair, u32>;
+
+pub(crate) fn model_apply(s: &Model, op: Op) -> Model {
+    let mut e = s.clone();
+    match op {
+        Op::At { p, i, val } => {
+            e.entry((p, i)).or_insert(val);
+        }
+        Op::Remove { p, i } => {
+            e.remove(&(p, i));
+        }
+        _ => {}
+    }
+    e
+}
+
+struct Diff {
+    /// (path, iface name) -> (view, effect)
+    items: Vec<(String, String, &'static str, &'static str)>,
+}
+
+fn diff_view(
+    name: &'static str,
+    seen: &BTreeMap<(String, String), Option<u32>>,
+    expected: &Model,
+    out: &mut Diff,
+) {
+    for ((p, i), val) in expected {
+        let key = (PATHS[*p].to_string(), IFACES[*i].to_string());
+        match seen.get(&key) {
+            None => out.items.push((key.0, key.1, name, "lost")),
+            Some(Some(v)) if v != val => out.items.push((key.0, key.1, name, "instance-changed")),
+            _ => {}
+        }
+    }
+    for (p, i) in seen.keys() {
+        let known = PATHS.iter().position(|x| x == p).and_then(|pi| {
+            IFACES
+                .iter()
+                .position(|x| x == i)
+                .map(|ii| expected.contains_key(&(pi, ii)))
+        });
+        if known != Some(true) {
+            out.items.push((p.clone(), i.clone(), name, "gained"));
+        }
+    }
+}
+
+fn named(m: &BTreeMap<Pair, u32>) -> BTreeMap<(String, String), Option<u32>> {
+    m.iter()
+        .map(|((p, i), v)| ((PATHS[*p].to_string(), IFACES[*i].to_string()), Some(*v)))
+        .collect()
+}
+
+fn unnamed(s: BTreeSet<(String, String)>) -> BTreeMap<(String, String), Option<u32>> {
+    s.into_iter().map(|k| (k, None)).collect()
+}
+
+fn join(s: &BTreeSet<&str>) -> String {
+    s.iter().cloned().collect::<Vec<_>>().join("+")
+}
+
+/// Compare one observed transition with the model. Returns the violations and an outcome class.
+pub(crate) fn check(history: &[Op], pre: Option<&Obs>, ret: &Result<OpRet, (String, String)>, post: &Result<Obs, (String, String)>) -> (Vec<Violation>, String) {
+    let mut out = vec![];
+    let replay = json!({"history": history_json(history)});
+    let hs = show_history(history);
+    let op = history.last().cloned();
+    let s: Model = pre.map(|o| Obs::set_of(&o.lookup)).unwrap_or_default();
+    let kind = op.map(|o| o.kind()).unwrap_or("init");
+    let tpath = op.and_then(|o| o.path()).map(|p| PATHS[p]);
+    let target: Option<Pair> = match op {
+        Some(Op::At { p, i, .. }) | Some(Op::Remove { p, i }) => Some((p, i)),
+        _ => None,
+    };
+    let target_present = target.map(|t| s.contains_key(&t)).unwrap_or(false);
+    let is_root = tpath == Some("/");
+    let has_live_descendant = tpath
+        .map(|tp| s.keys().any(|(q, _)| osrv::is_below(PATHS[*q], tp)))
+        .unwrap_or(false);
+    let last_interface = matches!(op, Some(Op::Remove { .. }))
+        && target_present
+        && !s.keys().any(|(q, j)| Some(PATHS[*q]) == tpath && Some((*q, *j)) != target);
+    let base = |v: Violation| {
+        v.feat("op", kind)
+            .feat("is_root", is_root)
+            .feat("has_live_descendant", has_live_descendant)
+            .feat("last_interface", last_interface)
+            .feat("target_present", target_present)
+    };
+    let class_pre = match op {
+        Some(Op::At { .. }) => if target_present { "at:duplicate" } else { "at:new" },
+        Some(Op::Remove { .. }) => if target_present { "remove:present" } else { "remove:absent" },
+        Some(Op::Lookup) => "lookup",
+        Some(_) => "other",
+        None => "init",
+    };
+
+    let r = match ret {
+        Err((k, text)) => {
+            out.push(base(Violation::new(
+                if k == "panic" { "no-panic" } else { "operation-returns" },
+                format!("[{hs}] the last operation ended in a {k}: {text}"),
+                replay.clone(),
+            ))
+            .feat("phase", "op"));
+            return (out, format!("{class_pre} -> {k}"));
+        }
+        Ok(r) => r,
+    };
+    let class = format!("{class_pre} -> {}", match r { OpRet::OtherErr(_) => "Err(other)".to_string(), r => r.show() });
+    let post = match post {
+        Err((k, text)) => {
+            out.push(base(Violation::new(
+                if k == "panic" { "no-panic" } else { "operation-returns" },
+                format!("[{hs}] probing the registry after the last operation ended in a {k}: {text}"),
+                replay.clone(),
+            ))
+            .feat("phase", "probe"));
+            return (out, format!("{class} -> probe {k}"));
+        }
+        Ok(p) => p,
+    };
+
+    // (a) what the operation returned
+    match op {
+        Some(Op::At { .. }) if target_present && *r != OpRet::Bool(false) => out.push(
+            base(Violation::new(
+                "duplicate-refused",
+                format!("[{hs}] registering a duplicate returned {} instead of Ok(false)", r.show()),
+                replay.clone(),
+            ))
+            .feat("effect", "not-refused"),
+        ),
+        Some(Op::Remove { .. }) if !target_present && matches!(r, OpRet::Bool(_)) => out.push(base(Violation::new(
+            "remove-absent-fails",
+            format!("[{hs}] removing an absent interface returned {}", r.show()),
+            replay.clone(),
+        ))),
+        _ => {}
+    }
+
+    // (b) the visible set
+    let e = op.map(|o| model_apply(&s, o)).unwrap_or_default();
+    let mut d = Diff { items: vec![] };
+    diff_view("lookup", &named(&Obs::set_of(&post.lookup)), &e, &mut d);
+    diff_view("call", &named(&Obs::set_of(&post.call)), &e, &mut d);
+    diff_view("property", &named(&Obs::set_of(&post.prop)), &e, &mut d);
+    diff_view("introspect", &unnamed(post.intro_direct()), &e, &mut d);
+    diff_view("introspect-walk", &unnamed(post.intro_walk()), &e, &mut d);
+    if !d.items.is_empty() {
+        let tname = target.map(|(p, i)| (PATHS[p].to_string(), IFACES[i].to_string()));
+        let (on_target, on_others): (Vec<_>, Vec<_>) = d
+            .items
+            .iter()
+            .partition(|(p, i, _, _)| Some((p.clone(), i.clone())) == tname);
+        let odd = post.odd();
+        let odd_txt = if odd.is_empty() { String::new() } else { format!("; odd answers: {odd:?}") };
+        if !on_target.is_empty() {
+            let views: BTreeSet<&str> = on_target.iter().map(|x| x.2).collect();
+            let effects: BTreeSet<&str> = on_target.iter().map(|x| x.3).collect();
+            let dup = matches!(op, Some(Op::At { .. })) && target_present;
+            out.push(
+                base(Violation::new(
+                    if dup { "duplicate-refused" } else { "target-pair" },
+                    format!(
+                        "[{hs}] after the last operation the operated pair is {} in view(s) {} (model expects {}){odd_txt}",
+                        join(&effects),
+                        join(&views),
+                        if e.contains_key(&target.unwrap()) { "present" } else { "absent" }
+                    ),
+                    replay.clone(),
+                ))
+                .feat("effect", join(&effects))
+                .feat("views", join(&views)),
+            );
+        }
+        if !on_others.is_empty() {
+            let views: BTreeSet<&str> = on_others.iter().map(|x| x.2).collect();
+            let effects: BTreeSet<&str> = on_others.iter().map(|x| x.3).collect();
+            let rels: BTreeSet<&str> = on_others
+                .iter()
+                .map(|x| tpath.map(|tp| relation(&x.0, tp)).unwrap_or("none"))
+                .collect();
+            let which: BTreeSet<String> = on_others.iter().map(|x| format!("({} {})", x.0, x.1)).collect();
+            out.push(
+                base(Violation::new(
+                    "other-pairs-unchanged",
+                    format!(
+                        "[{hs}] the last operation ({}) also changed other pairs: {} {} in view(s) {}{odd_txt}",
+                        op.map(|o| o.show()).unwrap_or_default(),
+                        which.into_iter().collect::<Vec<_>>().join(" "),
+                        join(&effects),
+                        join(&views)
+                    ),
+                    replay.clone(),
+                ))
+                .feat("effect", join(&effects))
+                .feat("relation", join(&rels))
+                .feat("views", join(&views)),
+            );
+        }
+    }
+    (out, class)
+}
+
+// ---------------------------------------------------------------------------------------------
+// Driver
+// ---------------------------------------------------------------------------------------------
+
+struct Counters {
+    states: Mutex<HashSet<u64>>,
+    transitions: std::sync::atomic::AtomicU64,
+    histories: std::sync::atomic::AtomicU64,
+    dead_prefix: std::sync::atomic::AtomicU64,
+}
+
+fn absorb(report: &Report, cnt: &Counters, ex: &Exec, local_states: &mut HashSet<u64>, want_sample: bool) -> Option<u64> {
+    use std::sync::atomic::Ordering::Relaxed;
+    match ex {
+        Exec::DeadPrefix(_, _) => {
+            cnt.dead_prefix.fetch_add(1, Relaxed);
+            report.outcome("extends a history that already panicked (pruned)");
+            None
+        }
+        Exec::Last { history, pre, ret, post } => {
+            report.eval(1);
+            cnt.histories.fetch_add(1, Relaxed);
+            cnt.transitions.fetch_add(history.len() as u64, Relaxed);
+            let (vs, class) = check(history, pre.as_ref(), ret, post);
+            report.outcome(&class);
+            let post_h = post.as_ref().ok().map(|o| hash64(&o.structural()));
+            if let Some(h) = post_h {
+                local_states.insert(h);
+            }
+            let pre_h = pre.as_ref().map(|o| hash64(&o.structural()));
+            let op_h = history.last().map(|o| match o {
+                Op::At { p, i, .. } => (0, *p, *i),
+                Op::Remove { p, i } => (1, *p, *i),
+                _ => (2, 0, 0),
+            });
+            report.nontrivial(hash64(&(pre_h, op_h, post_h, ret.is_ok())));
+            if want_sample {
+                report.sample(json!({
+                    "history": show_history(history),
+                    "returned": ret.as_ref().map(|r| r.show()).unwrap_or_else(|e| format!("{}: {}", e.0, e.1)),
+                    "visible_pairs_after": post.as_ref().ok().map(|o| Obs::set_of(&o.call).keys().map(|(p, i)| format!("{} I{}", PATHS[*p], i + 1)).collect::<Vec<_>>()),
+                    "violations": vs.len(),
+                }));
+            }
+            for v in vs {
+                report.violation(v);
+            }
+            post.as_ref().ok().map(|o| hash64(o))
+        }
+    }
+}
+
+fn decode(alpha: &[Op], idx: &[usize]) -> Vec<Op> {
+    idx.iter()
+        .enumerate()
+        .map(|(k, a)| match alpha[*a] {
+            Op::At { p, i, .. } => Op::At {
+                p,
+                i,
+                val: k as u32 + 1,
+            },
+            o => o,
+        })
+        .collect()
+}
+
+pub fn main(args: &Args) -> i32 {
+    if let Some(p) = &args.replay {
+        return replay(p);
+    }
+    let report = Report::new("C24", args.tier, args.seed, "model_checking");
+    let alpha = alphabet();
+    let depth = args.tier.pick(4usize, 5usize);
+    let cnt = Counters {
+        states: Mutex::new(HashSet::new()),
+        transitions: 0.into(),
+        histories: 0.into(),
+        dead_prefix: 0.into(),
+    };
+
+    // Phase 1: the full history tree, no merging.
+    let total = enumerate::count_strings(alpha.len(), depth);
+    vcommon::par_for(total, 64, |n| {
+        let mut idx = vec![];
+        enumerate::nth_string(alpha.len(), n, &mut idx);
+        let h = decode(&alpha, &idx);
+        let ex = run_history(&h, Tags::Given);
+        let mut local = HashSet::new();
+        // sample: a spread of indices
+        let want = hash64(&n) % (total as u64 / 10).max(1) == 0;
+        absorb(&report, &cnt, &ex, &mut local, want);
+        cnt.states.lock().unwrap().extend(local);
+    });
+    let tree_hist = cnt.histories.load(std::sync::atomic::Ordering::Relaxed);
+    report.set("full_tree_depth", json!(depth));
+    report.set("full_tree_histories", json!(tree_hist));
+
+    // Phase 2 (thorough): merge by canonical observation and continue until nothing new appears.
+    let mut merged = json!(null);
+    if args.tier == vcommon::Tier::Thorough {
+        let max_levels = 12usize;
+        let mut seen: BTreeMap<u64, Vec<Op>> = BTreeMap::new();
+        // level 0
+        let init = run_history(&[], Tags::FromPre);
+        let h0 = match &init {
+            Exec::Last { post: Ok(o), .. } => hash64(o),
+            _ => vcommon::machinery_failure("cannot observe the initial state"),
+        };
+        seen.insert(h0, vec![]);
+        let mut frontier: Vec<(u64, Vec<Op>)> = vec![(h0, vec![])];
+        let mut levels = vec![];
+        let mut closed = false;
+        for level in 1..=max_levels {
+            let jobs: Vec<(u64, Vec<Op>)> = frontier
+                .iter()
+                .flat_map(|(ch, h)| {
+                    alpha.iter().map(move |op| {
+                        let mut hh = h.clone();
+                        hh.push(*op);
+                        (*ch, hh)
+                    })
+                })
+                .collect();
+            let found: Mutex<BTreeMap<u64, Vec<Op>>> = Mutex::new(BTreeMap::new());
+            vcommon::par_for(jobs.len(), 8, |n| {
+                let (canon_pre, h) = &jobs[n];
+                let ex = run_history(h, Tags::FromPre);
+                if let Exec::Last { pre: Some(p), .. } = &ex {
+                    if hash64(p) != *canon_pre {
+                        vcommon::machinery_failure(&format!(
+                            "harness nondeterminism: replaying [{}] did not reproduce its canonical state",
+                            show_history(&h[..h.len() - 1])
+                        ));
+                    }
+                }
+                let mut local = HashSet::new();
+                let post = absorb(&report, &cnt, &ex, &mut local, false);
+                cnt.states.lock().unwrap().extend(local);
+                if let (Some(c), Exec::Last { history, .. }) = (post, &ex) {
+                    let mut f = found.lock().unwrap();
+                    // keep the smallest representative: deterministic irrespective of thread timing
+                    match f.get(&c) {
+                        Some(old) if old <= history => {}
+                        _ => {
+                            f.insert(c, history.clone());
+                        }
+                    }
+                }
+            });
+            let mut next = vec![];
+            for (c, h) in found.into_inner().unwrap() {
+                if !seen.contains_key(&c) {
+                    seen.insert(c, h.clone());
+                    next.push((c, h));
+                }
+            }
+            levels.push(json!({"level": level, "transitions": jobs.len(), "new_states": next.len()}));
+            frontier = next;
+            if frontier.is_empty() {
+                closed = true;
+                break;
+            }
+        }
+        if !closed {
+            report.cap(format!("merged search stopped at level {max_levels} with a non-empty frontier"));
+        }
+        merged = json!({"canonical_states": seen.len(), "levels": levels, "closed_under_alphabet": closed});
+    }
+
+    use std::sync::atomic::Ordering::Relaxed;
+    let n_states = cnt.states.lock().unwrap().len();
+    report.set("states", json!(n_states));
+    report.set("states_meaning", json!("distinct structural observations of the whole registry (lookup, call, property and introspection views of every universe path, instance tags stripped)"));
+    report.set("transitions", json!(cnt.transitions.load(Relaxed)));
+    report.set("traces_validated_against_impl", json!(cnt.histories.load(Relaxed)));
+    report.set("histories_pruned_after_panic", json!(cnt.dead_prefix.load(Relaxed)));
+    report.set("alphabet", json!(alpha.iter().map(|o| o.show()).collect::<Vec<_>>()));
+    report.set("merged_search", merged);
+    report.assume("each transition is one API call followed by running every task of both connections until nothing is enabled (default schedule); schedule variation inside a transition is not explored here");
+    report.assume("the probe (lookup + method call + property read + Introspect of every universe path) is itself an operation of the alphabet, so histories with and without intermediate probes are both covered");
+    report.finish(
+        "every history over the alphabet up to the depth bound is executed on a fresh real connection pair; the registry is probed before and after its last operation and compared with the set model applied to the observed pre-state; non-trivial = distinct (observed pre-state, operation, observed post-state) triples",
+        true,
+    )
+}
+
+fn replay(path: &str) -> i32 {
+    let v = vcommon::load_replay(path);
+    let hist = history_from_json(&v["replay"]["history"])
+        .or_else(|| history_from_json(&v["history"]))
+        .unwrap_or_else(|| vcommon::machinery_failure("replay file has no history"));
+    println!("history: {}", show_history(&hist));
+    let mut bad = 0;
+    for n in 0..=hist.len() {
+        let h = &hist[..n];
+        match run_history(h, Tags::Given) {
+            Exec::DeadPrefix(k, why) => {
+                println!("step {n}: not reached, step {} already failed: {why}", k + 1);
+                break;
+            }
+            Exec::Last { history, pre, ret, post } => {
+                if n == 0 {
+                    println!("initial state:");
+                } else {
+                    println!(
+                        "step {n}: {} -> {}",
+                        history[n - 1].show(),
+                        match &ret {
+                            Ok(r) => r.show(),
+                            Err((k, t)) => format!("{k}: {t}"),
+                        }
+                    );
+                }
+                match &post {
+                    Ok(o) => print!("{}", o.show()),
+                    Err((k, t)) => println!("  probe: {k}: {t}"),
+                }
+                let (vs, _) = check(&history, pre.as_ref(), &ret, &post);
+                for v in &vs {
+                    println!("  VIOLATION clause={} features={:?}\n    {}", v.clause, v.features, v.detail);
+                }
+                bad += vs.len();
+                if ret.is_err() || post.is_err() {
+                    break;
+                }
+            }
+        }
+    }
+    println!("replay: {bad} violating transition(s)");
+    (bad > 0) as i32
 }
